@@ -120,7 +120,7 @@ func crashClass(cr *childRun) (string, string) {
 	case strings.HasPrefix(m, "fatal error:"):
 		return "fatal-error", m + "\n" + stackExcerpt(cr.stderr)
 	case strings.HasPrefix(m, "panic:"):
-		return "panic", m + "\n" + stackExcerpt(cr.stderr)
+		return "panic@" + topFrame(cr.stderr), m + "\n" + stackExcerpt(cr.stderr)
 	}
 	return "child-died", fmt.Sprintf("exit %d: %s", cr.rc, tail(cr.stderr, 800))
 }
@@ -130,6 +130,21 @@ func tail(s string, n int) string {
 		return s[len(s)-n:]
 	}
 	return s
+}
+
+var frameRe = regexp.MustCompile(`(?m)^github\.com/lugu/qiloop/([^\s(]+(?:\(\*?\w+\))?[^\s(]*)\(`)
+
+// topFrame: the innermost qiloop function of the crashing goroutine (what panicked).
+func topFrame(s string) string {
+	i := strings.Index(s, "goroutine ")
+	if i < 0 {
+		return "unknown"
+	}
+	m := frameRe.FindStringSubmatch(s[i:])
+	if m == nil {
+		return "unknown"
+	}
+	return m[1]
 }
 
 // stackExcerpt keeps the first qiloop frames of the crashing goroutine.
